@@ -131,8 +131,10 @@ class UserKNNScorer(Component[ItemList], Trainable):
         normed, _norms = normalize_sparse_rows(rmat, "unit")
         normed = normed.to(torch.float32)
 
+        # finish every computation before touching the model, so a failure leaves the old one whole
+        ratings = torch_sparse_to_scipy(rmat).tocsc()
         self.user_vectors_ = normed.detach()
-        self.user_ratings_ = torch_sparse_to_scipy(rmat).tocsc()
+        self.user_ratings_ = ratings
         self.users_ = data.users
         self.user_means_ = means
         self.items_ = data.items
